@@ -130,6 +130,8 @@ type Host struct {
 	upSeq     int
 	inFlight  atomic.Int32
 	active    atomic.Int32
+	TLS       bool
+	plainState
 	// MaxInFlight is the largest number of simultaneously running request handlers seen.
 	MaxInFlight atomic.Int32
 }
